@@ -43,15 +43,21 @@ def main():
                 out["demo_without_tail"] = o2[-600:]
         finally:
             sh("git -C /repo worktree remove --force %s" % wt)
-    rc, o = sh("git -C /repo apply %s/patch.diff" % d)
+    # The check runs against a scratch worktree with the patch applied (VERIF_REPO), so /repo itself stays
+    # untouched and other checks can run meanwhile; evidence and replays of seeded runs go to scratch dirs.
+    wt2 = "/tmp/seedrun-%d" % os.getpid()
+    sh("git -C /repo worktree add -q %s HEAD" % wt2)
+    rc, o = sh("git apply %s/patch.diff" % d, cwd=wt2)
     if rc != 0:
-        out["check"] = "patch does not apply to /repo: " + o[-200:]
+        sh("git -C /repo worktree remove --force %s" % wt2)
+        out["check"] = "patch does not apply: " + o[-200:]
         print(json.dumps(out)); return
     t0 = time.time()
     try:
-        rc, o = sh("./check %s --tier %s" % (pid, tier), cwd="/verif", timeout=7200)
+        env2 = dict(os.environ, VERIF_REPO=wt2, VERIF_EVID=wt2 + "-evid", VERIF_REPLAYS=wt2 + "-replays")
+        rc, o = sh("./check %s --tier %s" % (pid, tier), cwd="/verif", env=env2, timeout=7200)
     finally:
-        sh("git -C /repo checkout -- . && git -C /repo clean -fdq")
+        sh("git -C /repo worktree remove --force %s; rm -rf %s-evid %s-replays" % (wt2, wt2, wt2))
     out["check_rc"] = rc
     out["check_wall_s"] = round(time.time() - t0, 1)
     out["detected"] = rc == 1 and "VIOLATION property=%s" % pid in o
